@@ -72,16 +72,19 @@ impl Oracle for ConstPrf {
 }
 
 /// Degenerate randomness of the hash-based join: the PRF value that holds the three Cuckoo/simple hash
-/// functions (a bit array [3, m, 128]) is answered by the harness - pseudo-random bits derived from (key, counter,
+/// functions (a bit array [3, m, PRF output size]) is answered by the harness - pseudo-random bits derived from (key, counter,
 /// seed), with hash function `1` overwritten by hash function `0` (pair index 0: functions 0,1; 1: 0,2; 2: 1,2).
 /// Every key is then sent to the same cell by two of the three functions: the event "a matched row is found in
 /// two of the switched Cuckoo tables" (probability about 2/(128 rows) per matched row with real randomness) happens
 /// for every matched row. Both parties holding the key get the same answer (function of key and counter only).
 pub struct HashCollide(pub usize, pub u64);
+/// number of PRF answers given by `HashCollide` (non-vacuity of the identical-hash-function tapes)
+pub static HASH_COLLIDE_HITS: std::sync::atomic::AtomicU64 = std::sync::atomic::AtomicU64::new(0);
 impl Oracle for HashCollide {
     fn prf(&mut self, _p: usize, _i: usize, k: &[u8], iv: u64, t: &Type) -> Option<Value> {
         if let Type::Array(shape, st) = t {
-            if *st == ciphercore_base::data_types::BIT && shape.len() == 3 && shape[0] == 3 && shape[2] == 128 {
+            if *st == ciphercore_base::data_types::BIT && shape.len() == 3 && shape[0] == 3 {
+                HASH_COLLIDE_HITS.fetch_add(1, std::sync::atomic::Ordering::Relaxed);
                 let mut h = self.1 ^ iv.wrapping_mul(0x9E3779B97F4A7C15);
                 for b in k {
                     h = (h ^ *b as u64).wrapping_mul(0x100000001B3);
@@ -594,6 +597,10 @@ pub fn run_engine(r: &Report, which: Which, progs: Vec<Prog>, b: &Budget) {
             tasks.push((pi, ov));
         }
     }
+    // development knob: only the programs whose class starts with the given prefix
+    if let Ok(c) = std::env::var("VERIF_ONLY_CLASS") {
+        tasks.retain(|(pi, _)| progs[*pi].class.starts_with(&c));
+    }
     r.count("tasks", tasks.len() as u64);
     if std::env::var("VERIF_DRY").is_ok() {
         eprintln!("programs={} tasks={} d1={} d2={} d3={}", r.get("programs"), tasks.len(), r.get("programs_depth1"), r.get("programs_depth2"), r.get("programs_depth3"));
@@ -605,6 +612,7 @@ pub fn run_engine(r: &Report, which: Which, progs: Vec<Prog>, b: &Budget) {
     tasks.par_iter().for_each(|(pi, ov)| {
         run_task(r, which, &progs[*pi], ov, b);
     });
+    r.count("join_hash_matrices_scripted_with_two_identical_functions", HASH_COLLIDE_HITS.load(std::sync::atomic::Ordering::Relaxed));
 }
 
 pub fn class_histogram(progs: &[Prog]) -> J {
